@@ -12,6 +12,7 @@ import (
 
 	"github.com/osteele/liquid/expressions"
 	"github.com/osteele/liquid/render"
+	"github.com/osteele/liquid/values"
 )
 
 // An IterationKeyedMap is a map that yields its keys, instead of (key, value) pairs, when iterated.
@@ -261,7 +262,7 @@ func makeIterator(value any) iterable {
 	case reflect.Map:
 		rv := reflect.ValueOf(value)
 		array := make([][]any, rv.Len())
-		for i, k := range rv.MapKeys() {
+		for i, k := range values.SortedMapKeys(rv) {
 			v := rv.MapIndex(k)
 			array[i] = []any{k.Interface(), v.Interface()}
 		}
